@@ -76,6 +76,7 @@ fn main() {
         .build_global()
         .unwrap_or_else(|e| machinery(&format!("thread pool: {e}")));
     install_panic_hook();
+    set_current_prop(&prop);
     let start = Instant::now();
     selftests();
     if prop == "crosscheck" {
